@@ -2,6 +2,12 @@ import Swat4.Lemmas.ReporterErr
 import Swat4.Lemmas.ReporterLenient
 import Swat4.Lemmas.ReporterPost
 import Swat4.Model.BrowserReq06
+import Swat4.Lemmas.HeartbeatChecked
+import Swat4.Lemmas.BrowserPipeline
+import Swat4.Lemmas.BrowserReqBridge
+import Swat4.Properties.C01
+import Swat4.Properties.C02
+import Swat4.Properties.C03
 /-!
 # C06 — No inbound bytes can crash a listener or change state unless well-formed
 
@@ -636,5 +642,175 @@ theorem tcp_handle_total (p : Option Bytes) : handle p ≠ .panic := by
     | ok f => intro h; cases h
     | err => intro h; cases h
     | panic => exact absurd hn this
+
+/-! ## UDP: totality with every index / slice expression checked (`Model/HeartbeatChecked.lean`)
+
+`udp_total` above is about `Heartbeat.dispatch`, whose `ParseInstanceID` / `parseHeartbeatParams` are written with the
+total `take` / `drop` / `cstrHead` / `cstrTail`: apart from `payload[0]` it cannot panic BY CONSTRUCTION.  The theorem
+with content is about `HeartbeatChecked.dispatchChecked`, the transcription of the same Go path in which
+`payload[0]`, `payload[1:5]`, `payload[5:]`, `unparsed[0]` (twice per round), `data[i]` / `data[:i]` / `data[i+1:]` of
+`binutils.ConsumeString`, the six slice expressions and `PutUint16` of the reply, and `hextable[…]` / `dst[j]` /
+`dst[j+1]` of `hex.Encode` are operations that CAN fail (`panic`) and the scanner loop runs on fuel (`hang`). -/
+
+/-- **UDP totality, checked transcription.**  C06 clause "for every byte string received on the reporter UDP port the
+service keeps running".  For every state, source, clock and NON-EMPTY datagram (`udpserver`'s `n > 0` guard), the
+checked transcription of `Dispatcher.Handle` → `dispatch` → handler → reply construction returns normally — no index
+or slice expression is out of range, the scanner loop ends within its fuel — with exactly the state and outcome of
+`Heartbeat.dispatch`, and that outcome is a reply, silence or an error, not `panic`.  (On the empty datagram both
+say `panic`: `udp_checked_panics_iff`, `udp_empty_panics`.) -/
+theorem udp_never_panics_checked (cfg : Cfg) (st : AbsState) (srcIp srcPort : Nat) (b : Bytes) (hb : b ≠ []) (now : Int) :
+    HeartbeatChecked.dispatchChecked cfg st srcIp srcPort b now = .ok (dispatch cfg st srcIp srcPort b now)
+    ∧ (dispatch cfg st srcIp srcPort b now).2 ≠ .panic := by
+  refine ⟨?_, udp_total cfg st srcIp srcPort b hb now⟩
+  rw [HeartbeatChecked.dispatchChecked_eq]
+  cases b with
+  | nil => exact absurd rfl hb
+  | cons t rest => rfl
+
+/-- the checked transcription panics EXACTLY on the empty datagram (and never hangs: by `udp_never_panics_checked`
+every other datagram is `.ok`) -/
+theorem udp_checked_panics_iff (cfg : Cfg) (st : AbsState) (srcIp srcPort : Nat) (b : Bytes) (now : Int) :
+    HeartbeatChecked.dispatchChecked cfg st srcIp srcPort b now = .panic ↔ b = [] := by
+  rw [HeartbeatChecked.dispatchChecked_eq]
+  cases b with
+  | nil => simp
+  | cons t rest => simp
+
+set_option maxRecDepth 20000 in
+/-- non-vacuity: on a concrete registration the checked transcription runs through the scanner, the use case and the
+reply construction, and answers the 28-byte reply -/
+example : HeartbeatChecked.dispatchChecked ⟨3⟩ {} 0x01010101 1234 (0x03 :: (xid ++ okBody)) 1000
+      = .ok (dispatch ⟨3⟩ {} 0x01010101 1234 (0x03 :: (xid ++ okBody)) 1000)
+    ∧ (dispatch ⟨3⟩ {} 0x01010101 1234 (0x03 :: (xid ++ okBody)) 1000).2 = .reply (heartbeatReply xid 0x01010101 1234)
+    ∧ (heartbeatReply xid 0x01010101 1234).length = 28 :=
+  ⟨(udp_never_panics_checked ⟨3⟩ {} 0x01010101 1234 (0x03 :: (xid ++ okBody)) (by simp) 1000).1, by decide, by decide⟩
+
+/-! ## TCP: the whole handler pipeline (`Model/BrowserPipeline.lean`) -/
+
+/-- the query `process` ends up with is C03's `browserQuery`; the checked parser neither panics nor hangs -/
+theorem parseQuery_eq (filters : Bytes) : BrowserPipeline.parseQuery filters = .ok (Filter.browserQuery filters) := by
+  unfold BrowserPipeline.parseQuery Filter.browserQuery
+  split
+  · rfl
+  · rw [C03.filter_parse_never_panics]
+    cases Filter.newFromString filters <;> rfl
+
+/-- **TCP totality, whole pipeline.**  C06 clause "for every byte string received on the browser TCP port the service
+keeps running, sends at most one reply".  For EVERY byte string read from the connection (in particular every one of
+at most 2048 bytes, the size of the handler's read buffer) or a failed read, every requester, every behaviour of the
+listing use case — any function from the parsed query to a list of selected servers or an error — and every 23
+cipher header draws, the model of the whole of `browser.Handler.Handle` — `browsing.NewRequest` (checked, C01),
+`query.NewFromString` (checked, C03), listing, `packServers` (checked, `packServersChecked_eq`), `crypt.Encrypt`
+(fuelled, C02) — ends in exactly one reply or in a close without reply: never `panic`, never `hang`.  When it
+replies, the filters used are C03's `browserQuery`, the plaintext is C01's `packServers` of the listing and the
+reply is 23 bytes longer than it. -/
+theorem tcp_pipeline_total (conn : Option Bytes) (client : Browsing.Client)
+    (listing : List Filter.Filter → Option (List Browsing.Server)) (rnd : Crypt.Rnd) :
+    BrowserPipeline.pipeline conn client listing rnd = .closed ∨
+    ∃ payload req servers out, conn = some payload
+      ∧ Browsing.parseRequest Browsing.Cfg.facts payload = .ok req
+      ∧ listing (Filter.browserQuery req.filters) = some servers
+      ∧ Crypt.encrypt? Browsing.gameKey req.challenge rnd (Browsing.packServers Browsing.Schema.facts client req.fields servers) = some out
+      ∧ out.length = (Browsing.packServers Browsing.Schema.facts client req.fields servers).length + 23
+      ∧ BrowserPipeline.pipeline conn client listing rnd = .reply out := by
+  unfold BrowserPipeline.pipeline
+  cases conn with
+  | none => left; rfl
+  | some payload =>
+    dsimp only
+    have hp := C01.parse_total payload
+    cases hreq : Browsing.parseRequest Browsing.Cfg.facts payload with
+    | error e => left; rfl
+    | panic => exact absurd hreq hp.1
+    | hang => exact absurd hreq hp.2
+    | ok req =>
+      dsimp only
+      rw [parseQuery_eq]
+      dsimp only
+      cases hl : listing (Filter.browserQuery req.filters) with
+      | none => left; rfl
+      | some servers =>
+        dsimp only
+        rw [BrowserPipeline.packServersChecked_eq]
+        dsimp only
+        have he := C02.encrypt_total Browsing.gameKey req.challenge rnd
+          (Browsing.packServers Browsing.Schema.facts client req.fields servers)
+        cases henc : Crypt.encrypt? Browsing.gameKey req.challenge rnd
+            (Browsing.packServers Browsing.Schema.facts client req.fields servers) with
+        | none => rw [henc] at he; cases he
+        | some out =>
+          right
+          exact ⟨payload, req, servers, out, rfl, hreq, hl, henc, C02.encrypt_length _ _ _ _ _ henc, rfl⟩
+
+/-- `tcp_pipeline_total` in the form "neither of the two outcomes that must not happen" -/
+theorem tcp_pipeline_never_panics (conn : Option Bytes) (client : Browsing.Client)
+    (listing : List Filter.Filter → Option (List Browsing.Server)) (rnd : Crypt.Rnd) :
+    BrowserPipeline.pipeline conn client listing rnd ≠ .panic ∧ BrowserPipeline.pipeline conn client listing rnd ≠ .hang := by
+  rcases tcp_pipeline_total conn client listing rnd with h | ⟨_, _, _, out, _, _, _, _, _, h⟩ <;> rw [h] <;>
+    exact ⟨(by intro c; cases c), (by intro c; cases c)⟩
+
+/-- **The pipeline refines `handle`** (the request-parse-only model the differential TCP stream compares with the
+code): with a listing that does not fail (healthy storage), the pipeline replies exactly when `handle` says `reply`,
+and closes exactly when `handle` says `closed`.  Uses `BrowserReqBridge.newRequest_eq` (the C06 request model is the
+outcome class of the C01 one). -/
+theorem tcp_pipeline_refines_handle (conn : Option Bytes) (client : Browsing.Client)
+    (listing : List Filter.Filter → Option (List Browsing.Server)) (hl : ∀ q, (listing q).isSome) (rnd : Crypt.Rnd) :
+    ((∃ out, BrowserPipeline.pipeline conn client listing rnd = .reply out) ↔ ∃ fields, handle conn = .reply fields) ∧
+    (BrowserPipeline.pipeline conn client listing rnd = .closed ↔ handle conn = .closed) := by
+  rcases tcp_pipeline_total conn client listing rnd with h | ⟨payload, req, servers, out, hc, hreq, _, _, _, h⟩
+  · -- closed: the request did not parse, or nothing was read (the listing cannot fail)
+    rw [h]
+    have hh : handle conn = .closed := by
+      cases conn with
+      | none => rfl
+      | some payload =>
+        unfold handle
+        dsimp only
+        rw [BrowserReqBridge.newRequest_eq]
+        revert h
+        unfold BrowserPipeline.pipeline
+        dsimp only
+        cases hreq : Browsing.parseRequest Browsing.Cfg.facts payload with
+        | error e => intro _; rfl
+        | panic => intro c; cases c
+        | hang => intro c; cases c
+        | ok req =>
+          dsimp only
+          rw [parseQuery_eq]
+          dsimp only
+          have := hl (Filter.browserQuery req.filters)
+          cases hls : listing (Filter.browserQuery req.filters) with
+          | none => rw [hls] at this; cases this
+          | some servers =>
+            dsimp only
+            rw [BrowserPipeline.packServersChecked_eq]
+            dsimp only
+            cases Crypt.encrypt? Browsing.gameKey req.challenge rnd
+              (Browsing.packServers Browsing.Schema.facts client req.fields servers) <;> (intro c; cases c)
+    rw [hh]
+    exact ⟨⟨fun ⟨_, c⟩ => (by cases c), fun ⟨_, c⟩ => (by cases c)⟩, ⟨fun _ => rfl, fun _ => rfl⟩⟩
+  · rw [h]
+    have hh : handle conn = .reply req.fields := by
+      subst hc
+      unfold handle
+      dsimp only
+      rw [BrowserReqBridge.newRequest_eq, hreq]
+      rfl
+    rw [hh]
+    exact ⟨⟨fun _ => ⟨_, rfl⟩, fun _ => ⟨_, rfl⟩⟩, ⟨fun c => (by cases c), fun c => (by cases c)⟩⟩
+
+/-- a well-formed list request asking for `hostname` and `gamever`, no filter -/
+def okTcpRequest : Bytes :=
+  [0, 49, 0, 1, 3, 0, 0, 0, 0] ++ Bytes.ofAscii "a" ++ [0] ++ Bytes.ofAscii "a" ++ [0] ++ [1, 2, 3, 4, 5, 6, 7, 8] ++ [0] ++
+    Bytes.ofAscii "\\hostname\\ping\\gamever" ++ [0, 0, 0, 0, 1]
+
+/-- non-vacuity of `tcp_pipeline_total`: both disjuncts occur — a well-formed request is answered by a reply (whatever
+the listing and the cipher draws), a truncated one and a failed read by a close -/
+example (client : Browsing.Client) (rnd : Crypt.Rnd) (servers : List Browsing.Server) :
+    (∃ out, BrowserPipeline.pipeline (some okTcpRequest) client (fun _ => some servers) rnd = .reply out)
+    ∧ BrowserPipeline.pipeline (some (okTcpRequest.take 30)) client (fun _ => some servers) rnd = .closed
+    ∧ BrowserPipeline.pipeline none client (fun _ => some servers) rnd = .closed :=
+  ⟨(tcp_pipeline_refines_handle _ client _ (fun _ => rfl) rnd).1.mpr ⟨[Bytes.ofAscii "hostname", Bytes.ofAscii "gamever"], by decide⟩,
+   (tcp_pipeline_refines_handle _ client _ (fun _ => rfl) rnd).2.mpr (by decide), rfl⟩
 
 end Swat4.C06
